@@ -649,6 +649,11 @@ func afterRecursiveCall(ls *loaderSSA, ins ssa.Instruction) bool {
 // every later load that includes the file with text that is not in the file).
 func ruleCacheFromDisk(c *Ctx, ls *loaderSSA) {
 	cg := cgView{c}
+	// carriesText: a string, or a value a text was parsed into (a syntax tree, the list of its parse errors)
+	carriesText := func(t types.Type) bool {
+		ts := types.TypeString(t, nil)
+		return ts == "string" || strings.Contains(ts, "/internal/ast.") || strings.HasSuffix(ts, "include.LoadError")
+	}
 	isReadFile := func(v ssa.Value) bool {
 		call, ok := v.(*ssa.Call)
 		if !ok {
@@ -674,6 +679,9 @@ func ruleCacheFromDisk(c *Ctx, ls *loaderSSA) {
 		}
 		sites := cg.callersOf(f)
 		if len(sites) == 0 || depth > 3 {
+			if types.TypeString(p.Type(), nil) != "string" {
+				return "" // not a text: a value of an entry point that the rule cannot trace further
+			}
 			return "parameter " + p.Name() + " of " + funcName(f)
 		}
 		for _, site := range sites {
@@ -691,7 +699,8 @@ func ruleCacheFromDisk(c *Ctx, ls *loaderSSA) {
 				continue
 			}
 			for q := range unbound {
-				if types.TypeString(q.Type(), nil) == "string" {
+				// a text, or something made from one further up (a parsed journal handed to a `store` helper)
+				if carriesText(q.Type()) {
 					if w := textFromCaller(q, depth+1, seen); w != "" {
 						return w
 					}
@@ -719,7 +728,7 @@ func ruleCacheFromDisk(c *Ctx, ls *loaderSSA) {
 				}
 				sort.Slice(ps, func(i, j int) bool { return ps[i].Pos() < ps[j].Pos() })
 				for _, p := range ps {
-					if types.TypeString(p.Type(), nil) != "string" || keySl[p] {
+					if !carriesText(p.Type()) || keySl[p] {
 						continue // the path the entry is stored under
 					}
 					if w := textFromCaller(p, 0, map[*ssa.Parameter]bool{}); w != "" {
